@@ -109,21 +109,25 @@ theorem coupled_seen {s : Srv} {b : Bot} (hc : Coupled s b) {k : Str} {u : SUser
       subst this; rw [hu] at hub; cases hub; rfl
     · simp only [e, ↓reduceIte]; exact hp
 
-theorem chanRel_congr {s s' : Srv} (h : s'.bot = s.bot) (a : Option SChan) (c : Option Chan) :
-    ChanRel s' a c = ChanRel s a c := by
-  cases a <;> cases c <;> simp [ChanRel, Srv.botKey, h]
+/-- after a message from user `u` the bot knows `u`'s hostmask -/
+theorem seen_n2h (b : Bot) (u : SUser) : aget (b.seen u).n2h (lower u.nick) = some u.mask := by
+  show aget (aset b.n2h (lower u.nick) u.mask) (lower u.nick) = _
+  rw [aget_aset_self]
+
+theorem chanRel_congr {s s' : Srv} (h : s'.bot = s.bot) (hcfg : s'.cfg = s.cfg) (k : Str)
+    (hms : s'.mSynced k = s.mSynced k) (hbs : s'.bSynced k = s.bSynced k) (a : Option SChan) (c : Option Chan) :
+    ChanRel s' k a c = ChanRel s k a c := by
+  cases a <;> cases c <;> simp [ChanRel, Srv.botKey, h, hcfg, hms, hbs]
 
 /-- one channel of the server state and the bot's record of it change; everything else stays -/
 theorem coupled_update {s s' : Srv} {b b' : Bot} (hc : Coupled s b) (kc : Str)
     (hu : s'.users = s.users) (hbot : s'.bot = s.bot) (hcfg : s'.cfg = s.cfg)
-    (hnd' : (akeys s'.chans).Nodup)
+    (hsy : ∀ k, k ≠ kc → s'.mSynced k = s.mSynced k ∧ s'.bSynced k = s.bSynced k)
     (hchans : ∀ k, k ≠ kc → aget s'.chans k = aget s.chans k)
     (hbch : ∀ k, k ≠ kc → aget b'.channels k = aget b.channels k)
-    (hrel : ChanRel s' (aget s'.chans kc) (aget b'.channels kc))
+    (hrel : ChanRel s' kc (aget s'.chans kc) (aget b'.channels kc))
     (hnick : b'.nick = b.nick) (hcn : b'.cfgNick = b.cfgNick) (hci : b'.cfgIdent = b.cfgIdent)
-    (hn2h : ∀ k u, aget s.users k = some u → aget b.n2h k = some u.mask → aget b'.n2h k = some u.mask)
-    (hnew : ∀ sc' k u, aget s'.chans kc = some sc' → sc'.has s.botKey = true → sc'.has k = true →
-      aget s.users k = some u → aget b'.n2h k = some u.mask)
+    (hn2h : ∀ k u, aget s.users k = some u → k ∈ s'.told → aget b'.n2h k = some u.mask)
     (hpfx : ∀ u, aget s.users s.botKey = some u → b.pfx = u.mask → b'.pfx = u.mask)
     (hpfxnew : ∀ sc', aget s'.chans kc = some sc' → sc'.has s.botKey = true →
       ∃ u, aget s.users s.botKey = some u ∧ b'.pfx = u.mask) :
@@ -134,19 +138,10 @@ theorem coupled_update {s s' : Srv} {b b' : Bot} (hc : Coupled s b) (kc : Str)
   · intro k
     by_cases hk : k = kc
     · subst hk; exact hrel
-    · rw [hchans k hk, hbch k hk, chanRel_congr hbot]; exact hc.chans k
+    · rw [hchans k hk, hbch k hk, chanRel_congr hbot hcfg k (hsy k hk).1 (hsy k hk).2]; exact hc.chans k
   · intro k u huk hv
     rw [hu] at huk
-    obtain ⟨kc', sc, hsc, h1, h2⟩ := (visible_iff hnd').mp hv
-    rw [hbk] at h1
-    by_cases hk : kc' = kc
-    · subst hk; exact hnew sc k u hsc h1 h2 huk
-    · rw [hchans kc' hk] at hsc
-      have hvis : s.visible k = true := by
-        unfold Srv.visible
-        simp only [List.any_eq_true, Bool.and_eq_true]
-        exact ⟨(kc', sc), aget_mem hsc, h1, h2⟩
-      exact hn2h k u huk (hc.hosts k u huk hvis)
+    exact hn2h k u huk hv
   · intro k sc hsc hb
     rw [hbk] at hb ⊢
     rw [hu]
@@ -156,35 +151,26 @@ theorem coupled_update {s s' : Srv} {b b' : Bot} (hc : Coupled s b) (kc : Str)
       obtain ⟨ub, hub, hp⟩ := hc.pfx k sc hsc hb
       exact ⟨ub, hub, hpfx ub hub hp⟩
 
-/-- the same, when the bot's hostmask map and prefix are untouched -/
-theorem coupled_update' {s s' : Srv} {b b' : Bot} (hc : Coupled s b) (hnd : (akeys s.chans).Nodup) (kc : Str)
+/-- the same, when the bot's hostmask map and prefix and what the server has told are untouched -/
+theorem coupled_update' {s s' : Srv} {b b' : Bot} (hc : Coupled s b) (kc : Str)
     (hu : s'.users = s.users) (hbot : s'.bot = s.bot) (hcfg : s'.cfg = s.cfg)
-    (hnd' : (akeys s'.chans).Nodup)
+    (hms : s'.modesSynced = s.modesSynced) (hbs : s'.bansSynced = s.bansSynced) (htold : s'.told = s.told)
     (hchans : ∀ k, k ≠ kc → aget s'.chans k = aget s.chans k)
     (hbch : ∀ k, k ≠ kc → aget b'.channels k = aget b.channels k)
-    (hrel : ChanRel s' (aget s'.chans kc) (aget b'.channels kc))
+    (hrel : ChanRel s' kc (aget s'.chans kc) (aget b'.channels kc))
     (hnick : b'.nick = b.nick) (hcn : b'.cfgNick = b.cfgNick) (hci : b'.cfgIdent = b.cfgIdent)
     (hn2h : b'.n2h = b.n2h) (hp : b'.pfx = b.pfx)
     (hsub : ∀ sc sc', aget s.chans kc = some sc → aget s'.chans kc = some sc' →
-       sc'.has s.botKey = true → (sc.has s.botKey = true ∧ ∀ k, sc'.has k = true → sc.has k = true))
+       sc'.has s.botKey = true → sc.has s.botKey = true)
     (hnew : ∀ sc', aget s.chans kc = none → aget s'.chans kc = some sc' → sc'.has s.botKey = false) :
     Coupled s' b' := by
-  refine coupled_update hc kc hu hbot hcfg hnd' hchans hbch hrel hnick hcn hci ?_ ?_ ?_ ?_
-  · intro k u _ h; rw [hn2h]; exact h
-  · intro sc' k u hsc' h1 h2 huk
-    rw [hn2h]
-    cases hsc : aget s.chans kc with
-    | none => rw [hnew sc' hsc hsc'] at h1; cases h1
-    | some sc =>
-      obtain ⟨hb, hall⟩ := hsub sc sc' hsc hsc' h1
-      apply hc.hosts k u huk
-      exact (visible_iff hnd).mpr ⟨kc, sc, hsc, hb, hall k h2⟩
+  refine coupled_update hc kc hu hbot hcfg (fun k _ => ⟨by simp [Srv.mSynced, hms], by simp [Srv.bSynced, hbs]⟩) hchans hbch hrel hnick hcn hci ?_ ?_ ?_
+  · intro k u hk ht; rw [hn2h]; rw [htold] at ht; exact hc.hosts k u hk ht
   · intro u _ h; rw [hp]; exact h
   · intro sc' hsc' h1
     rw [hp]
     cases hsc : aget s.chans kc with
     | none => rw [hnew sc' hsc hsc'] at h1; cases h1
-    | some sc =>
-      exact hc.pfx kc sc hsc (hsub sc sc' hsc hsc' h1).1
+    | some sc => exact hc.pfx kc sc hsc (hsub sc sc' hsc hsc' h1)
 
 end C10
